@@ -413,7 +413,8 @@ fn evaluate_properties<S: GraphSnapshot>(args: &[Value], snapshot: &S) -> Value 
                 }
                 Value::Map(out)
             } else {
-                Value::Null
+                // an entity without stored properties has the empty property map
+                Value::Map(std::collections::BTreeMap::new())
             }
         }
         Some(Value::EdgeKey(key)) => {
@@ -424,7 +425,7 @@ fn evaluate_properties<S: GraphSnapshot>(args: &[Value], snapshot: &S) -> Value 
                 }
                 Value::Map(out)
             } else {
-                Value::Null
+                Value::Map(std::collections::BTreeMap::new())
             }
         }
         Some(Value::Null) => Value::Null,
